@@ -5,7 +5,7 @@ CONSTANTS
   InModes = {"const"}
   Convs = {0, 3}
   FlagSet = {0, 3, 4, 7}
-  Splits = {0, 1}
+  Splits = {0, 1, 2}
   Empties = {FALSE}
   Fmts = {"z80"}
 INVARIANT NoDesync
